@@ -58,6 +58,8 @@ pub fn tuple_destructure(tpl_dstrct: &TupleDestructure, p: &Interpreter) -> MRes
   };
   let symbols = p.symbols();
   let mut symbols_brrw = symbols.borrow_mut();
+  // Validate every target before defining any of them, so that a failing
+  // destructure leaves no partial bindings behind.
   for (i, var) in tpl_dstrct.vars.iter().enumerate() {
     let id = var.hash();
     if symbols_brrw.contains(id) {
@@ -66,14 +68,18 @@ pub fn tuple_destructure(tpl_dstrct: &TupleDestructure, p: &Interpreter) -> MRes
         None
       ).with_compiler_loc().with_tokens(var.tokens()));
     }
-    if let Some(element) = tpl.borrow().get(i) {
-      symbols_brrw.insert(id, element.clone(), true);
-      symbols_brrw.dictionary.borrow_mut().insert(id, var.name.to_string());
-    } else {
+    if tpl.borrow().get(i).is_none() {
       return Err(MechError::new(
         TupleDestructureTooManyVarsError{ value: source.kind() },
         None
       ).with_compiler_loc().with_tokens(var.tokens()));
+    }
+  }
+  for (i, var) in tpl_dstrct.vars.iter().enumerate() {
+    let id = var.hash();
+    if let Some(element) = tpl.borrow().get(i) {
+      symbols_brrw.insert(id, element.clone(), true);
+      symbols_brrw.dictionary.borrow_mut().insert(id, var.name.to_string());
     }
   }
   Ok(source)
